@@ -1,8 +1,146 @@
-(** C09 — transparent tunnels.  Statements only. *)
-From Coq Require Import String List NArith.
-From Fabio Require Import Lib.Outcome Lib.Bytes Model.BufioR Model.Tunnel Proofs.Tunnel.
+(** C09 — TCP, TCP+SNI, tcp-dynamic and WebSocket tunnels are transparent byte streams
+    (proxy/tcp/copy_buffer.go, proxy_proto.go, tcp_proxy.go, tcp_dynamic_proxy.go,
+    sni_proxy.go, proxy/ws_handler.go).
+    This file contains only statements, [exact], and [Print Assumptions]. *)
+From Coq Require Import String List NArith Bool.
+From Fabio Require Import Lib.Outcome Lib.Bytes Model.ClientHello Model.BufioR Model.Tunnel Proofs.Tunnel.
 Import ListNotations.
 
-Theorem C09_placeholder : True.
-Proof. exact placeholder_true. Qed.
-Print Assumptions C09_placeholder.
+(* The copy loop: for every segmentation of the source (every chunking of the reads) the
+   destination receives exactly the source's bytes; the loop terminates. *)
+Theorem C09_copy_preserves_stream : forall src : list str, copy_buffer src = Ok (concat src).
+Proof. exact copy_preserves_stream. Qed.
+Print Assumptions C09_copy_preserves_stream.
+
+Theorem C09_copy_any_buffer_size : forall m src, (0 < m)%nat ->
+  copy_loop (S (src_measure src)) m src = Some (concat src).
+Proof. exact copy_any_buffer_size. Qed.
+Print Assumptions C09_copy_any_buffer_size.
+
+(* PROXY protocol v1 line: shape, and fields without a space can be read back. *)
+Theorem C09_proxy_line_format : forall is4 ca sa cp sp,
+  proxy_line is4 ca sa cp sp =
+    bs "PROXY "%string ++ (if is4 then bs "TCP4"%string else bs "TCP6"%string) ++ bs " "%string ++ ca ++ bs " "%string ++ sa
+      ++ bs " "%string ++ cp ++ bs " "%string ++ sp ++ [13%N; 10%N].
+Proof. exact proxy_line_format. Qed.
+Print Assumptions C09_proxy_line_format.
+
+Theorem C09_proxy_line_injective : forall is4 is4' ca sa cp sp ca' sa' cp' sp',
+  no_sep ca -> no_sep sa -> no_sep cp -> no_sep ca' -> no_sep sa' -> no_sep cp' ->
+  proxy_line is4 ca sa cp sp = proxy_line is4' ca' sa' cp' sp' ->
+  is4 = is4' /\ ca = ca' /\ sa = sa' /\ cp = cp' /\ sp = sp'.
+Proof. exact proxy_line_injective. Qed.
+Print Assumptions C09_proxy_line_injective.
+
+(* tcp: for every segmentation the upstream receives [PROXY line] ++ the client's stream. *)
+Theorem C09_tcp_upstream_stream : forall pp line segs,
+  upstream_stream KTcp pp line segs = Ok (Some (spec_upstream KTcp pp line (concat segs))).
+Proof. exact tcp_upstream_meets_spec. Qed.
+Print Assumptions C09_tcp_upstream_stream.
+
+(* tcp-dynamic: the client's stream for every segmentation; the PROXY option is ignored
+   (finding F-C09-4, region [region_dyn_proxyproto]). *)
+Theorem C09_dynamic_upstream_stream : forall pp line segs,
+  upstream_stream KDyn pp line segs = Ok (Some (concat segs)).
+Proof. exact dynamic_upstream_stream. Qed.
+Print Assumptions C09_dynamic_upstream_stream.
+
+Theorem C09_dynamic_upstream_on_domain : forall line segs,
+  upstream_stream KDyn false line segs = Ok (Some (spec_upstream KDyn false line (concat segs))).
+Proof. exact dynamic_upstream_on_domain. Qed.
+Print Assumptions C09_dynamic_upstream_on_domain.
+
+Theorem C09_dynamic_ignores_proxyproto_refuted : forall line segs, line <> [] ->
+  region_dyn_proxyproto KDyn true = true /\
+  upstream_stream KDyn true line segs <> Ok (Some (spec_upstream KDyn true line (concat segs))).
+Proof. exact dynamic_ignores_proxyproto_refuted. Qed.
+Print Assumptions C09_dynamic_ignores_proxyproto_refuted.
+
+(* tcp+sni, with the bufio.Reader modelled: no byte is invented, duplicated or reordered;
+   the upstream receives the stream with exactly the bytes stuck in the reader cut out ... *)
+Theorem C09_sni_upstream_stream : forall (pp : bool) (line : str) segs st,
+  sni_setup (if pp then line else []) segs = Ok (Some st) ->
+  exists data, data ++ s_lost st ++ concat (s_src st) = concat segs /\
+    upstream_stream KSni pp line segs = Ok (Some ((if pp then line else []) ++ data ++ concat (s_src st))).
+Proof. exact sni_upstream_stream. Qed.
+Print Assumptions C09_sni_upstream_stream.
+
+(* ... which is the whole stream for every segmentation outside the region
+   (nothing buffered beyond the ClientHello) ... *)
+Theorem C09_sni_upstream_stream_on_domain : forall (pp : bool) (line : str) segs,
+  region_sni_leftover KSni (if pp then line else []) segs = false ->
+  forall st, sni_setup (if pp then line else []) segs = Ok (Some st) ->
+  upstream_stream KSni pp line segs = Ok (Some (spec_upstream KSni pp line (concat segs))).
+Proof. exact sni_upstream_stream_on_domain. Qed.
+Print Assumptions C09_sni_upstream_stream_on_domain.
+
+Theorem C09_sni_on_domain_nonvacuous :
+  region_sni_leftover KSni [] [firstn 20 wit_hello; skipn 20 wit_hello; [1; 2; 3]%N] = false /\
+  upstream_stream KSni false [] [firstn 20 wit_hello; skipn 20 wit_hello; [1; 2; 3]%N]
+    = Ok (Some (wit_hello ++ [1; 2; 3]%N)).
+Proof. exact sni_on_domain_nonvacuous. Qed.
+Print Assumptions C09_sni_on_domain_nonvacuous.
+
+(* ... and is not inside it (finding F-C09-1): hello ++ 3 bytes in one segment, then 1 byte. *)
+Theorem C09_sni_leftover_refuted :
+  exists segs, region_sni_leftover KSni [] segs = true /\
+    upstream_stream KSni false [] segs = Ok (Some (wit_hello ++ [9%N])) /\
+    concat segs = wit_hello ++ [1; 2; 3; 9]%N /\
+    upstream_stream KSni false [] segs <> Ok (Some (spec_upstream KSni false [] (concat segs))).
+Proof. exact sni_leftover_refuted. Qed.
+Print Assumptions C09_sni_leftover_refuted.
+
+(* The first finished direction ends the tunnel.  For every schedule of the two copiers:
+   each side has received a prefix of what the other sent (once, in order, unmodified) ... *)
+Theorem C09_tunnel_delivers_prefixes : forall sched c ceof u ueof,
+  let s := trun sched (tinit c ceof u ueof) in
+  (exists rest, concat c = t_c_done s ++ rest) /\ (exists rest, concat u = t_u_done s ++ rest).
+Proof. exact tunnel_delivers_prefixes. Qed.
+Print Assumptions C09_tunnel_delivers_prefixes.
+
+(* ... and whichever side finishes first has had all of its data delivered. *)
+Theorem C09_finisher_fully_delivered : forall sched c ceof u ueof,
+  let s := trun sched (tinit c ceof u ueof) in
+  (t_ended s = Some C2U -> t_c_done s = concat c /\ ceof = true) /\
+  (t_ended s = Some U2C -> t_u_done s = concat u /\ ueof = true).
+Proof. exact finisher_fully_delivered. Qed.
+Print Assumptions C09_finisher_fully_delivered.
+
+(* A half-closing client does not get the reply (finding F-C09-2): a schedule exists in
+   which the client direction sees EOF first; the scripted scenario of the harness forces it. *)
+Theorem C09_half_close_reply_refuted :
+  exists sched req reply,
+    let s := trun sched (tinit [req] true [reply] true) in
+    reply <> [] /\ t_ended s = Some C2U /\ t_c_done s = req /\ t_u_done s = [] /\ t_u_done s <> reply.
+Proof. exact half_close_reply_refuted. Qed.
+Print Assumptions C09_half_close_reply_refuted.
+
+Theorem C09_half_close_scenario_refuted :
+  exists e, region_half_close false CHalf = true /\
+    scenario_expect KTcp false [] [[1; 2; 3]%N] false CHalf UOnEOF [7; 8]%N 0 0 UClose = Ok e /\
+    e_up e = [1; 2; 3]%N /\ e_up_lo e = 3%N /\ e_cl_hi e = 0%N /\
+    spec_b KTcp false [] [1; 2; 3]%N false CHalf UOnEOF [7; 8]%N UClose [1; 2; 3]%N [] = false.
+Proof. exact half_close_scenario_refuted. Qed.
+Print Assumptions C09_half_close_scenario_refuted.
+
+(* While the client has not ended its side the reply is delivered in full under every schedule
+   in which the upstream finishes. *)
+Theorem C09_half_close_reply_on_domain : forall sched c u ueof,
+  let s := trun sched (tinit c false u ueof) in
+  t_ended s = Some U2C -> t_u_done s = concat u.
+Proof. exact half_close_reply_on_domain. Qed.
+Print Assumptions C09_half_close_reply_on_domain.
+
+(* websocket: a handshake reply whose first segment carries the 12 tested bytes is accepted;
+   one split inside them is treated as a failed upgrade (finding F-C09-3). *)
+Theorem C09_ws_upgrade_on_domain : forall seg1, has_prefix seg1 ws_101 = true -> ws_upgraded seg1 = true.
+Proof. exact ws_upgrade_on_domain. Qed.
+Print Assumptions C09_ws_upgrade_on_domain.
+
+Theorem C09_ws_split_101_refuted :
+  exists e, has_prefix wit_reply ws_101 = true /\ region_ws_split KWs wit_reply 10 = true /\
+    scenario_expect KWs false [] [[1; 2]%N] false CStay UAtConnect wit_reply 10 (nlen' wit_reply) UStay = Ok e /\
+    e_cl e = firstn 10 wit_reply /\ e_cl_hi e = 10%N /\ e_up e = [] /\
+    spec_b KWs false [] [1; 2]%N false CStay UAtConnect wit_reply UStay (e_up e) (e_cl e) = false.
+Proof. exact ws_split_101_refuted. Qed.
+Print Assumptions C09_ws_split_101_refuted.
